@@ -8,6 +8,10 @@ fn main() {
     let get = |k: &str, d: &str| -> String {
         args.iter().position(|a| a == k).and_then(|i| args.get(i + 1)).cloned().unwrap_or(d.to_string())
     };
+    if args.iter().any(|a| a == "--http") {
+        verif_harness::http::HTTP_MODE.store(true, std::sync::atomic::Ordering::SeqCst);
+        verif_harness::http::ensure_server();
+    }
     if args.iter().any(|a| a == "--hung") {
         // C12, runtime half: every other call returns promptly while an update hangs in a network callback
         let base: Vec<u8> = (0..4096u32).map(|i| (i * 7 % 251) as u8).collect();
@@ -18,10 +22,6 @@ fn main() {
         for l in &lines { println!("{}", l); }
         println!("HUNG-SUMMARY lines={} violations={}", lines.len(), bad);
         std::process::exit(if bad == 0 { 0 } else { 1 });
-    }
-    if args.iter().any(|a| a == "--http") {
-        verif_harness::http::HTTP_MODE.store(true, std::sync::atomic::Ordering::SeqCst);
-        verif_harness::http::ensure_server();
     }
     let seed: u64 = get("--seed", "1").parse().unwrap();
     let count: u64 = get("--count", "100").parse().unwrap();
